@@ -711,6 +711,201 @@ CHECKS["C16"] = {
 }
 
 
+def glob_to_re(g):
+    """documented glob forms of globset (default options: `*` also crosses `/`)"""
+    import re as _re
+    out, i = "", 0
+    while i < len(g):
+        if g.startswith("**/", i):
+            out += "(?:.*/)?"; i += 3
+        elif g.startswith("/**", i) and i + 3 == len(g):
+            out += "/.*"; i += 3
+        elif g.startswith("**", i):
+            out += ".*"; i += 2
+        elif g[i] == "*":
+            out += ".*"; i += 1
+        elif g[i] == "?":
+            out += "."; i += 1
+        else:
+            out += _re.escape(g[i]); i += 1
+    return _re.compile("^" + out + "$", _re.S)
+
+
+def glob_match(globs, path):
+    return any(glob_to_re(g).match(path) for g in globs)
+
+
+C15_EXT = [("py", "# "), ("rs", "// "), ("js", "// "), ("toml", "# "), ("sh", "# "), ("go", "// ")]
+
+
+def c15_scenario(rnd, k):
+    dirs = ["", "src/", "src/deep/", "a/", "b/", "b/b/", "docs/x y/", "v1.2/", "lib/"]
+    files = {}
+    n = rnd.randint(3, 9)
+    for i in range(n):
+        ext, c = rnd.choice(C15_EXT)
+        d = rnd.choice(dirs)
+        name = rnd.choice(["f", "main", "x.y", "n m", "mod"]) + str(i)
+        files[f"{d}{name}.{ext}"] = f"{c}<block name=\"k{i}\">\nold{i}\n{c}</block>\n"
+    # hidden, git-ignored and grammar-less files (must never be listed unless named by the diff)
+    extras = {}
+    if rnd.random() < 0.6:
+        extras[".hidden.py"] = "# <block name=\"hid\">\nold\n# </block>\n"
+    if rnd.random() < 0.4:
+        extras[".cfg/inner.py"] = "# <block name=\"hid2\">\nold\n# </block>\n"
+    gitignore = []
+    if rnd.random() < 0.6:
+        extras["secret.py"] = "# <block name=\"ign\">\nold\n# </block>\n"; gitignore.append("secret.py")
+    if rnd.random() < 0.4:
+        extras["out/gen.rs"] = "// <block name=\"ign2\">\nold\n// </block>\n"; gitignore.append("out/")
+    if rnd.random() < 0.3:
+        extras["notes.log.py"] = "# <block name=\"ign3\">\nold\n# </block>\n"; gitignore.append("*.log.py")
+    if rnd.random() < 0.5:
+        extras["README.txt"] = "# <block name=\"never-closed\">\n"
+    allf = dict(files); allf.update(extras)
+    if gitignore:
+        allf[".gitignore"] = "\n".join(gitignore) + "\n"
+    paths = sorted(files)
+    def some_glob():
+        p = rnd.choice(paths)
+        ext = p.rsplit(".", 1)[1]
+        d = p.rsplit("/", 1)[0] if "/" in p else None
+        forms = ["*." + ext, p, "**/" + p.rsplit("/", 1)[-1], "**/*." + ext]
+        if d:
+            forms += [d + "/**", d.split("/")[0] + "/**", d + "/*." + ext]
+        return rnd.choice(forms)
+    globs = [some_glob() for _ in range(rnd.choice([0, 0, 1, 1, 2, 3]))]
+    ignores = [some_glob() for _ in range(rnd.choice([0, 0, 1, 1, 2, 3]))]
+    with_diff = rnd.random() < 0.6
+    diff_files = []
+    if with_diff:
+        cand = paths + list(extras)
+        cand = [c for c in cand if c != "README.txt"] + (["README.txt"] if "README.txt" in extras and rnd.random() < 0.3 else [])
+        diff_files = rnd.sample(cand, min(len(cand), rnd.randint(0, 3)))
+    diff = ""
+    for p in diff_files:
+        diff += f"diff --git a/{p} b/{p}\nindex 1..2 100644\n--- a/{p}\n+++ b/{p}\n@@ -2 +2 @@\n-older\n+" + allf[p].split("\n")[1] + "\n"
+    sub = rnd.choice(["", "", "src", "b/b", "docs/x y"])
+    hidden = lambda p: any(part.startswith(".") for part in p.split("/"))
+    ignored_git = lambda p: p == "secret.py" and "secret.py" in gitignore or p.startswith("out/") and "out/" in gitignore or p.endswith(".log.py") and "*.log.py" in gitignore
+    terminal = not with_diff
+    eff_globs = globs if globs else (["**"] if terminal else [])
+    scan = bool(eff_globs)
+    walk = [p for p in allf if not hidden(p) and not ignored_git(p)]
+    allow = [p for p in walk if glob_match(eff_globs, p)]
+    ign = [p for p in allf if glob_match(ignores, p)]
+    raw = {"files": [{"path": p, "text": t} for p, t in allf.items()], "walk": walk, "allow": allow, "ignore": ign, "scan": scan,
+           "meta": {"gen": "scope", "k": k, "globs": globs, "ignores": ignores, "sub": sub, "terminal": terminal, "diff_files": diff_files}}
+    if with_diff:
+        raw["diff"] = diff
+    return raw
+
+
+def c15_run(rep, tier, seed, tr):
+    import cli as C, random
+    rep.rules.append("generated trees (nested directories incl. a/ b/ b/b/, names with spaces and dots, hidden files and directories, .gitignore with exact / directory / *.ext entries, grammar-less files) x 0-3 positional globs x 0-3 --ignore globs from the documented forms x diffs naming files inside / outside the globs (incl. hidden and git-ignored ones) x start directory (root or a subdirectory); the set of files `list` prints vs the model's scope formula and the in-process parse_blocks; non-trivial = at least one file listed")
+    n = n_for(tier, 300, 3000)
+    rnd = random.Random(seed)
+    raws = [c15_scenario(rnd, k) for k in range(n)]
+    d = os.path.join(K.WORK, rep.prop, "scope")
+    _sh = __import__("shutil"); _sh.rmtree(d, ignore_errors=True); os.makedirs(d)
+    with open(os.path.join(d, "raw.jsonl"), "w") as f:
+        for r in raws:
+            f.write(json.dumps(r) + "\n")
+    K.sh([K.BWH, "replay", "--out", d, os.path.join(d, "raw.jsonl")])
+    K.run_model(os.path.join(d, "cases.jsonl"), os.path.join(d, "model.jsonl"))
+    rows = [(json.loads(a), json.loads(b), json.loads(c)) for a, b, c in zip(open(os.path.join(d, "cases.jsonl")), open(os.path.join(d, "impl.jsonl")), open(os.path.join(d, "model.jsonl")))]
+    K.correspondence(rep, rows, "scope (in-process)", has_blocks)
+    def one(row):
+        case = row[0]; m = case["meta"]
+        root = C.tmp_root()
+        try:
+            C.materialise(root, [(f["path"], f["text"]) for f in case["files"]])
+            args = []
+            for g in m["ignores"]:
+                args += ["--ignore", g]
+            args += ["list"] + m["globs"]
+            env = {"BLOCKWATCH_TERMINAL_MODE": "1"} if m["terminal"] else {}
+            cwd = os.path.join(root, m["sub"]) if m["sub"] else root
+            os.makedirs(cwd, exist_ok=True)
+            return C.run_bw(cwd, args, stdin=case.get("diff"), env=env)
+        finally:
+            _sh.rmtree(root, ignore_errors=True)
+    for (case, impl, model), res in zip(rows, C.pmap(one, rows)):
+        rep.evaluations += 1
+        rep.traces += 1
+        out = C.outcome_list(res)
+        diffs = C.compare_cli_list(out, model)
+        rep.count("scope:cli:" + ("panic" if "panic" in out else "err" if "ctx" in out else f"{len(out.get('list', {}))}files"))
+        if diffs:
+            rep.violation({"property": rep.prop, "component": "scope (CLI list)", "what": "the set of files / blocks listed by the binary differs from the scope formula",
+                           "case": case, "cli": res, "model": model, "differences": [{"field": f, "cli": a, "model_and_spec": b} for f, a, b in diffs]})
+    # repository root discovery
+    def root_case(kind):
+        root = C.tmp_root()
+        try:
+            if kind == "nested":
+                C.materialise(root, [("a.py", "# <block name=\"outer\">\n# </block>\n"), ("inner/b.py", "# <block name=\"inner\">\n# </block>\n")])
+                os.makedirs(os.path.join(root, "inner", ".git"))
+                os.makedirs(os.path.join(root, "inner", "deep"))
+                return C.run_bw(os.path.join(root, "inner", "deep"), ["list"], env={"BLOCKWATCH_TERMINAL_MODE": "1"})
+            if kind == "hg":
+                C.materialise(root, [("a.py", "# <block name=\"x\">\n# </block>\n")], git_marker=False)
+                os.makedirs(os.path.join(root, ".hg")); os.makedirs(os.path.join(root, "s"))
+                return C.run_bw(os.path.join(root, "s"), ["list"], env={"BLOCKWATCH_TERMINAL_MODE": "1"})
+            C.materialise(root, [("a.py", "# ok\n")], git_marker=False)
+            return C.run_bw(root, ["list"], env={"BLOCKWATCH_TERMINAL_MODE": "1"})
+        finally:
+            _sh.rmtree(root, ignore_errors=True)
+    for kind, check in [("nested", lambda r: r["exit"] == 0 and set(json.loads(r["stdout"])) == {"b.py"}),
+                        ("hg", lambda r: r["exit"] == 0 and set(json.loads(r["stdout"])) == {"a.py"}),
+                        ("none", lambda r: r["exit"] not in (0, None) and "repository root" in r["stderr"])]:
+        res = root_case(kind)
+        rep.evaluations += 1
+        ok = False
+        try:
+            ok = check(res)
+        except Exception:
+            ok = False
+        rep.count(f"root:{kind}:" + ("ok" if ok else "bad"))
+        if not ok:
+            rep.violation({"property": rep.prop, "component": f"repository root ({kind})", "cli": res})
+
+
+CHECKS["C15"] = {
+    "module": "Bw.Props.C15", "needs_binary": True,
+    "level_note": DEFAULT_LEVEL_NOTE + " Partial: the `ignore` crate's walk (hidden / git-ignored files) and `globset` matching are dependencies; the documented glob forms are re-implemented as a reference matcher and compared through the binary, not proved.",
+    "trusted_base": TB_COMMON + ["reference glob matcher and hidden/.gitignore expectations in checks/registry.py (c15_scenario)"],
+    "run": c15_run,
+}
+
+
+def oracle_no_crash(case, impl):
+    if "panic" in impl:
+        return [f"panic: {impl['panic']}"]
+    if impl.get("exit") not in (0, 1):
+        return [f"exit status {impl.get('exit')}"]
+    return []
+
+
+def c04_run(rep, tier, seed, tr):
+    rep.rules.append("per suffix (39, round robin): token soups over comment delimiters of every language, tag fragments, quotes, brackets, newlines/CRLF, NBSP / emoji / combining / zero-width / U+2028 / NUL characters, and char-level mutations (delete, insert token, cut, swap, duplicate) of well-formed generated files; scan mode, diff mode with arbitrary line changes, one-hunk diffs, token-soup diffs; each case under catch_unwind in-process and a prefix through the binary with a 20 s timeout; non-trivial = the file has at least one comment node")
+    n = n_for(tier, 40000, 600000)
+    rows = K.run_component(rep.prop, "soup", [], seed, n, tier)
+    def nontrivial(case, impl, model):
+        return any(f.get("nodes") for f in case["files"])
+    K.correspondence(rep, rows, "soup", nontrivial, known=K.load_known(rep.prop), oracle=oracle_no_crash)
+    cli_correspondence(rep, rows, "soup", n_for(tier, 300, 3000), subs=("validate", "list"), known=K.load_known(rep.prop))
+
+
+CHECKS["C04"] = {
+    "module": "Bw.Props.C04", "needs_binary": True,
+    "level_note": DEFAULT_LEVEL_NOTE + " Partial: panics of Rust slicing/arithmetic that the total Lean functions cannot exhibit, unidiff / regex / similar / tree-sitter C code, allocation failure and stack depth are exercised by the fuzzing correspondence (catch_unwind, timeouts), not proved.",
+    "trusted_base": TB_COMMON + ["tree-sitter contract: HTML/XML comment nodes start with `<!--` and end with `-->` (assumed by xml_ok_of_contract, monitored: a violation shows up as a panic replay)"],
+    "run": c04_run,
+}
+
+
 def replay(prop, path):
     """re-run one recorded case against the current tree and the model; print both outcomes"""
     data = json.load(open(path))
